@@ -170,6 +170,12 @@ def handle (op : String) (args : List String) : Option String :=
       let src ← parseIntList? src; let qs ← parseQueries? qs
       let out := runHistory (c != "0") src (initShared src) qs []
       some ("ok " ++ (if out.isEmpty then "-" else ";".intercalate out))
+  | "query.runx", [src, k, c, qs] => do
+      -- the underlying generator raises ZeroDivisionError after k values
+      let src ← parseIntList? src; let k ← k.toNat?; let qs ← parseQueries? qs
+      let out := if c != "0" then runRaising src k .ZeroDivisionError (initRaising src k .ZeroDivisionError) qs
+                 else qs.map (fun q => genRaising q src k .ZeroDivisionError)
+      some ("ok " ++ (if out.isEmpty then "-" else ";".intercalate (out.map (fun r => (showRes r).replace " " "_"))))
   | _, _ => none
 
 end Ops.CacheOps
